@@ -20,6 +20,7 @@ func init() {
 			c.run("C14-R3", "SIBLING: servers honour the narrowed action", c14R3)
 			c.run("C14-R4", "SIBLING+LITERAL: end-of-transfer detection in the four pumps", c14R4)
 			c.run("C14-R5", "MUST-PASS: recovery — flush on every handshake exit, full reset to standby", c14R5)
+			c.run("C14-R7", "GUARD-DOM: polarity of the relay's hand-over decisions (flush routes, confirmed flag, recorded client facts)", c14R7)
 			c.run("C14-R6", "PAIR+GUARD-DOM (shared with C13-R1/R2): nothing can be parked after the flush, so no stale chunk is left for the next transfer's handshake", func(c *Ctx) { c13R1(c); c13R2(c) })
 		})
 }
@@ -328,6 +329,18 @@ func c14R4(c *Ctx) {
 		for _, r := range resets {
 			onTr := factCmp(factsAt(r.Block()), token.EQL, anyValue, isConstIntV(tr))
 			c.check(onTr && isConstIntV(tr)(r.Common().Args[1]), ps.fn+"/reset@transferring", c.ipos(r), "reset only from the transferring status", "reset to standby outside the transferring edge")
+			// and for a reason: with no end marker in the chunk and the chunk not a lone Ctrl-C, no reset is reachable
+			noReason := []assumption{
+				{pred: func(v ssa.Value) bool { call, _ := callOf(v); return call != nil && calleeID(&call.Call) == "bytes.Contains" }, val: false},
+				{val: false, cmp: func(op token.Token, x, y ssa.Value) (bool, bool) { // len(buf) == 1
+					lc, _ := callOf(x)
+					if (op != token.EQL && op != token.NEQ) || !isConstIntV(1)(y) || lc == nil || calleeID(&lc.Call) != "builtin len" {
+						return false, false
+					}
+					return true, op == token.EQL
+				}},
+			}
+			c.check(!blocksUnder(f, noReason)[r.Block()], ps.fn+"/reset-has-a-reason", c.ipos(r), "the relay leaves 'transferring' only on an end marker or a lone Ctrl-C", "the relay can leave 'transferring' on a chunk that carries no end marker and is not a lone Ctrl-C: it goes back to standby in the middle of a transfer")
 		}
 		for _, m := range want {
 			for _, call := range ms[m] {
@@ -486,4 +499,193 @@ func precedes(a, b ssa.Instruction) bool {
 	fwd, _ := reachAvoid(a, func(x ssa.Instruction) bool { return x == b }, nil)
 	back, _ := reachAvoid(b, func(x ssa.Instruction) bool { return x == a }, nil)
 	return fwd != nil && back == nil
+}
+
+// c14R7: polarity of the hand-over decisions. (a) The flush forwards every popped chunk and stops only on the empty pop;
+// tunnel channels only on the tunnel-connected edge with a non-nil tunnel relay, terminal channels only off it; the tmux
+// by-pass channel only when the handshake was confirmed; status goes to transferring exactly when confirmed and back to
+// standby otherwise. (b) The handshake records the tunnel flag and the client's line framing from the client's action before
+// forwarding it, reports an error only when there is one, marks "confirmed" only on the path where the client confirmed and
+// the (rewritten) config went out, and adds the tmux junk flag exactly in tmux normal mode.
+func c14R7(c *Ctx) {
+	f := c.fn("TrzszRelay.flushHandshakeBuffer")
+	pops := callsIn(f, idIs("(*trzsz.trzszBuffer).popBuffer"))
+	isPop := func(in ssa.Instruction) bool {
+		for _, p := range pops {
+			if in == p.(ssa.Instruction) {
+				return true
+			}
+		}
+		return false
+	}
+	isTunnelLoad := func(v ssa.Value) bool {
+		call, _ := callOf(v)
+		return call != nil && isAtomicOnField(call, "tunnelConnected", "Load")
+	}
+	for _, p := range pops {
+		pv := p.Value()
+		_, fld, _ := fieldOf(p.Common().Args[0])
+		sendsBuf := func(in ssa.Instruction) bool {
+			s, ok := in.(*ssa.Send)
+			return ok && s.X == ssa.Value(pv)
+		}
+		nilEdge := func(from, to *ssa.BasicBlock) bool {
+			return factCmp(edgeFactsTo(from, to), token.EQL, isValue(pv), isNilConst)
+		}
+		hit, path := reachFromE(p.Block(), instrIndex(p.(ssa.Instruction))+1, func(in ssa.Instruction) bool { return isPop(in) || isReturn(in) }, sendsBuf, nilEdge)
+		c.check(hit == nil, "flush/"+fld+"/every-pop-forwarded", c.ipos(p), "every chunk popped is forwarded before the next pop; the loop ends on the empty pop", "a popped chunk can be dropped (or the loop can end with chunks still parked)", c.pathStr(path)...)
+		// after the empty pop the loop is left (no spinning under the lock)
+		for _, b := range f.Blocks {
+			for k, s := range b.Succs {
+				_ = k
+				if len(b.Succs) == 2 && nilEdge(b, s) {
+					h2, p2 := reachFrom(s, 0, func(in ssa.Instruction) bool { return in == p.(ssa.Instruction) }, nil)
+					c.check(h2 == nil, "flush/"+fld+"/empty-ends-loop", c.pos(b.Instrs[len(b.Instrs)-1].Pos()), "the empty pop ends this drain loop", "after the empty pop the same buffer is popped again: the flush spins while holding the buffer lock", c.pathStr(p2)...)
+				}
+			}
+		}
+	}
+	eachInstr(f, func(in ssa.Instruction) {
+		s, ok := in.(*ssa.Send)
+		if !ok {
+			return
+		}
+		_, ch, _ := fieldOf(s.Chan)
+		fs := factsAt(s.Block())
+		tun, tunKnown := false, false
+		for _, fc := range fs {
+			if isTunnelLoad(fc.V) {
+				tun, tunKnown = fc.Pol, true
+			}
+		}
+		switch ch {
+		case "clientBufChan", "serverBufChan":
+			base, _, _ := fieldOf(s.Chan)
+			_, nonNil := factNil(fs, base)
+			c.check(tunKnown && tun && nonNil, "flush/"+ch+"@tunnel", c.ipos(s), "parked chunks go through the tunnel only when it is connected and the tunnel relay exists", "parked chunks are sent to the tunnel on the wrong edge (tunnel not connected / no tunnel relay)")
+		case "osStdinChan", "osStdoutChan", "bypassTmuxChan":
+			// not reachable from the tunnel-connected edge of this round
+			c.check(!(tunKnown && tun), "flush/"+ch+"@no-tunnel", c.ipos(s), "parked chunks go to the terminal side only when the tunnel is not in use", "parked chunks are sent to the terminal side on the tunnel-connected edge: they end up on the wrong connection")
+			if ch != "osStdinChan" {
+				v, known := false, false
+				for _, fc := range fs {
+					if isVar("confirm")(fc.V) {
+						v, known = fc.Pol, true
+					}
+				}
+				c.check(known && v == (ch == "bypassTmuxChan"), "flush/"+ch+"@confirm", c.ipos(s), "server output parked during the handshake goes to the tmux by-pass exactly when the transfer was confirmed", "server output parked during the handshake takes the by-pass / normal path on the wrong edge of 'confirmed'")
+			}
+		}
+	})
+	for _, ci := range callsIn(f, anyID) {
+		v, known := false, false
+		for _, fc := range factsAt(ci.Block()) {
+			if isVar("confirm")(fc.V) {
+				v, known = fc.Pol, true
+			}
+		}
+		if isStatusCall(ci, "Store") {
+			k, _ := constInt(ci.Common().Args[1])
+			c.check(known && v && k == c.constVal("kRelayTransferring"), "flush/transferring-iff-confirmed", c.ipos(ci), "the relay enters 'transferring' exactly when the handshake was confirmed", "the relay enters 'transferring' on the wrong edge of 'confirmed'")
+		}
+		if calleeID(ci.Common()) == "(*trzsz.TrzszRelay).resetToStandby" {
+			c.check(known && !v, "flush/standby-iff-not-confirmed", c.ipos(ci), "an unconfirmed or failed handshake returns the relay to standby", "the relay returns to standby on the wrong edge of 'confirmed'")
+		}
+	}
+
+	h := c.fn("TrzszRelay.handshake")
+	ra := callsIn(h, idIs("(*trzsz.TrzszRelay).recvAction"))
+	sa := callsIn(h, idIs("(*trzsz.TrzszRelay).sendAction"))
+	sc := callsIn(h, idIs("(*trzsz.TrzszRelay).sendConfig"))
+	if len(ra) != 1 || len(sa) != 1 || len(sc) != 1 {
+		c.lost("recvAction / sendAction / sendConfig in the relay handshake")
+	}
+	okTun, okWin := false, false
+	for _, ci := range callsIn(h, anyID) {
+		if isAtomicOnField(ci, "tunnelConnected", "Store") && isFieldLoad("TunnelConnected")(ci.Common().Args[1]) && domI(ra[0].(ssa.Instruction), ci.(ssa.Instruction)) && domI(ci.(ssa.Instruction), sa[0].(ssa.Instruction)) {
+			okTun = true
+		}
+	}
+	eachInstr(h, func(in ssa.Instruction) {
+		st, ok := in.(*ssa.Store)
+		if !ok {
+			return
+		}
+		if n, _ := fieldAddrName(st.Addr); n == "TrzszRelay.clientIsWindows" {
+			b, isB := st.Val.(*ssa.BinOp)
+			if isB && b.Op == token.EQL && isFieldLoad("Newline")(b.X) && isConstStrV("!\n")(b.Y) && domI(st, sa[0].(ssa.Instruction)) {
+				okWin = true
+			}
+		}
+	})
+	c.check(okTun, "handshake/records-tunnel-flag", c.ipos(ra[0]), "the relay records the client's tunnel flag before forwarding the action", "the relay does not record whether the ends are connected through the tunnel: parked and later chunks take the wrong route")
+	c.check(okWin, "handshake/records-client-framing", c.ipos(ra[0]), "the relay records the Windows line framing announced by the client", "the relay does not record the client's line framing: lines to/from a Windows client are framed wrongly")
+	// recvConfig only after the client confirmed
+	for _, ci := range callsIn(h, idIs("(*trzsz.TrzszRelay).recvConfig")) {
+		v, known := boolFieldFactAt(ci.Block(), "Confirm")
+		c.check(known && v, "handshake/config-iff-confirmed", c.ipos(ci), "the server's config is awaited only when the client confirmed", "the config exchange runs on the wrong edge of the client's confirmation")
+	}
+	// confirm := true only after sendConfig succeeded (and so after Confirm)
+	var cell ssa.Value
+	nTrue := 0
+	eachInstr(h, func(in ssa.Instruction) {
+		st, ok := in.(*ssa.Store)
+		if !ok {
+			return
+		}
+		al, isAl := st.Addr.(*ssa.Alloc)
+		if !isAl || al.Comment != "confirm" {
+			return
+		}
+		cell = al
+		if b, isC := constBool(st.Val); isC && b {
+			nTrue++
+			errV := ssa.Value(sc[0].(*ssa.Call))
+			good := domI(sc[0].(ssa.Instruction), st) && factCmp(factsAt(st.Block()), token.EQL, isValue(errV), isNilConst)
+			c.check(good, "handshake/confirmed-only-after-config-sent", c.ipos(st), "'confirmed' is set only on the edge where the rewritten config was sent without error", "'confirmed' can be set without the config having reached the client")
+		}
+	})
+	c.check(cell != nil && nTrue == 1, "handshake/confirmed-set", c.pos(h.Pos()), "the success path marks the handshake confirmed", "no path marks the handshake confirmed: the relay returns to standby while the transfer it let through is running")
+	if nTrue == 1 {
+		// and the success path cannot skip it
+		okE := factCmp
+		_ = okE
+		hit, path := reachFromE(sc[0].Block(), instrIndex(sc[0].(ssa.Instruction))+1, isReturn, func(in ssa.Instruction) bool {
+			st, ok := in.(*ssa.Store)
+			if !ok {
+				return false
+			}
+			b, isC := constBool(st.Val)
+			return st.Addr == cell && isC && b
+		}, func(from, to *ssa.BasicBlock) bool {
+			return factCmp(edgeFactsTo(from, to), token.NEQ, isValue(sc[0].(*ssa.Call)), isNilConst)
+		})
+		c.check(hit == nil, "handshake/success=>confirmed", c.ipos(sc[0]), "after the config went out every path marks the handshake confirmed", "a handshake that completed can still be flushed as 'not confirmed'", c.pathStr(path)...)
+	}
+	// the tmux junk flag
+	eachInstr(h, func(in ssa.Instruction) {
+		st, ok := in.(*ssa.Store)
+		if !ok {
+			return
+		}
+		if n, _ := fieldAddrName(st.Addr); n == "transferConfig.TmuxOutputJunk" || strings.HasSuffix(n, ".TmuxOutputJunk") {
+			normal := factCmp(factsAt(st.Block()), token.EQL, isFieldLoad("tmuxMode"), isConstIntV(c.constVal("tmuxNormalMode")))
+			b, isC := constBool(st.Val)
+			c.check(normal && isC && b, "handshake/junk-flag-iff-tmux-normal", c.ipos(st), "the relay announces tmux output junk exactly when it runs inside tmux in normal mode", "the tmux junk flag is set on the wrong edge of the relay's tmux mode")
+		}
+	})
+	// the deferred reporter
+	d := c.fn("TrzszRelay.handshake$1")
+	for _, ci := range callsIn(d, idIs("(*trzsz.TrzszRelay).sendError")) {
+		arg := ci.Common().Args[1]
+		_, nonNil := factNil(factsAt(ci.Block()), arg)
+		c.check(nonNil, "handshake/report-iff-error", c.ipos(ci), "an error is reported to the client only when there is one", "the error report runs on the err == nil edge (nil dereference) and real errors are not reported")
+	}
+	fl := callsIn(d, idIs("(*trzsz.TrzszRelay).flushHandshakeBuffer"))
+	good := len(fl) == 1
+	if good {
+		hit, _ := reachFrom(d.Blocks[0], 0, isReturn, func(in ssa.Instruction) bool { return in == fl[0].(ssa.Instruction) })
+		good = hit == nil && isVar("confirm")(fl[0].Common().Args[1])
+	}
+	c.check(good, "handshake/always-flush(confirm)", c.pos(d.Pos()), "every exit of the handshake flushes with the confirmed flag", "an exit of the handshake does not flush with the confirmed flag")
 }
